@@ -32,6 +32,7 @@ func c17(c *Ctx) {
 	decoderErrorSticky(c, "decoder-error-sticky")
 	c17EncoderWholeValue(c)
 	c17RequestBodyWhole(c)
+	releasedMemoryNotRetained(c, "released-memory-not-retained", "the reply one client is still being sent is re-encoded with another client's version, request id, charset and language", "services/ipp", "services/decoder")
 }
 
 func c17Decoder(c *Ctx) {
